@@ -57,7 +57,12 @@ class BoundedStream(io.IOBase):
         return self
 
     def __next__(self) -> bytes:
-        return next(self.stream)
+        # NOTE: Iterate via readline() so that iteration honors the
+        #   Content-Length budget, the same as every other read method.
+        line = self.readline()
+        if not line:
+            raise StopIteration
+        return line
 
     next = __next__
 
@@ -81,11 +86,14 @@ class BoundedStream(io.IOBase):
         # NOTE(kgriffs): Default to reading all remaining bytes if the
         # size is not specified or is out of bounds. This behaves
         # similarly to the IO streams passed in by non-wsgiref servers.
-        if size is None or size == -1 or size > self._bytes_remaining:
+        if size is None or size < 0 or size > self._bytes_remaining:
             size = self._bytes_remaining
 
-        self._bytes_remaining -= size
-        return target(size)
+        # NOTE: Deduct what was actually returned, not what was requested;
+        #   line-oriented and short reads return fewer bytes than `size`.
+        result = target(size)
+        self._bytes_remaining -= len(result)
+        return result
 
     def readable(self) -> bool:
         """Return ``True`` always."""
@@ -139,7 +147,20 @@ class BoundedStream(io.IOBase):
 
         """
 
-        return self._read(hint, self.stream.readlines)
+        # NOTE: The wrapped stream's readlines() completes its last line
+        #   even beyond the hint, which could run past Content-Length;
+        #   collect lines via the bounded readline() instead.
+        lines: List[bytes] = []
+        total = 0
+        while True:
+            line = self.readline()
+            if not line:
+                break
+            lines.append(line)
+            total += len(line)
+            if hint is not None and 0 < hint <= total:
+                break
+        return lines
 
     def write(self, data: bytes) -> None:
         """Raise IOError always; writing is not supported."""
